@@ -201,6 +201,24 @@ def check_checked_registry(ctx, rep):
                    'one\'s layout in the schema, silently' % (f.path, [f.where(b) for b in free]))
     if n_reg < 2:
         rep.bad('R10.h', 'sites', 'expected register_type and register_type_with_samples of TypeGen, found %d' % n_reg)
+    # R10.i: WHICH tracer entry point a register method uses decides whether the schema is complete: trace_simple_type enumerates every
+    # variant of every enum it reaches and fails loudly (MissingVariants) when it cannot, while trace_type(&samples) lets a recorded sample
+    # stand in for a newtype and never looks behind it — an enum behind a sampled newtype is then known only by the variants the sample
+    # happened to use, silently. Each register method calls exactly its tabled tracer entry points (seeded: register_type tracing with the
+    # stored samples "so that register_app works for custom-serialised newtypes").
+    rep.rule('R10.i', 'each TypeGen register method uses exactly its tabled Tracer entry points (a type without samples of its own is traced exhaustively)', floor=3)
+    TRACER_TABLE = {'register_type': {'trace_simple_type'}, 'register_samples': {'trace_value'},
+                    'register_type_with_samples': {'trace_value', 'trace_type'}}
+    for f in fns:
+        if f.kind != 'AssocFn' or f.j.get('exp') or f.name not in TRACER_TABLE or not path_matches(f.assoc.get('self_adt'), 'crux_core::typegen::TypeGen'):
+            continue
+        fam = [f] + core.closures_of(f)
+        used = set(last_seg(norm(t.get('callee') or '')) for g in fam for bb, t in g.calls()
+                   if norm(t.get('callee') or '').startswith('serde_reflection::trace::Tracer::trace_'))
+        rep.expect('R10.i', used == TRACER_TABLE[f.name], '%s|tracer-entry-points' % f.kpath, 'calls %s' % sorted(used),
+                   '%s traces through %s, tabled %s: trace_type / trace_type_once with a sample store accept a recorded sample in place of a '
+                   'nested newtype and never enumerate what is behind it, so variants can be missing from the generated schema with no error'
+                   % (f.path, sorted(used), sorted(TRACER_TABLE[f.name])))
 
 
 def check(ctx, rep):
@@ -249,6 +267,12 @@ class RuleProxy:
 
     def missing(self, rid, what):
         self.rep.missing(self.rid, what)
+
+    def rule(self, rid, text, floor=0):
+        self.rep.rule(self.rid, text, floor=floor)
+
+    def control(self, *a, **k):
+        pass
 
 
 def check_wire_types(ctx, rep):
